@@ -256,6 +256,9 @@ pub enum Op {
     MintLegacy { script: ScriptId, name: Vec<u8>, qty: i64, set: bool },
     /// hand the session's inputs builder over again (drops inputs a selection added)
     SetInputsAgain,
+    /// hand the unchanged collection builders over again (bit 0 collateral, 1 certificates, 2 withdrawals,
+    /// 3 mint, 4 votes, 5 proposals; only those handed over before): a repeated delivery that changes nothing
+    HandOverAgain(u8),
     // ---- balancing
     Select(Strategy, Vec<usize>),
     Change(ChangeSpec),
